@@ -2297,3 +2297,19 @@ def _independent_seeds():
 
 
 _independent_seeds()
+
+
+# C15.3 in statement form (on top of benign/T2/2.diff: the rank-0 test as guard clauses `if <variadic>: continue` + `return False`,
+# the sentinel test as a statement)
+SEEDS["C15_stmt_form_substring_membership"] = ("C15", [("@diff", "benign/T2/2.diff", None), (A, "    return any(d.startswith(dtype) for d in dtypes)\n\n\nclass _MetaAbstractArray", "    return any(dtype in d for d in dtypes)\n\n\nclass _MetaAbstractArray")], "C15.3")
+SEEDS["C15_stmt_form_named_variadic_rejected"] = ("C15", [("@diff", "benign/T2/2.diff", None), (A, "        if isinstance(dim, _NamedVariadicDim):\n            continue\n        return False", "        return False")], "C15.3")
+
+
+# C05.9: per-frame state beside the stack
+SEEDS["C05_per_frame_cache_beside_stack"] = ("C05", [(S, "    memo_stack.append(memos)\n    return memos", "    memo_stack.append(memos)\n    _shape_storage.scratch = {}\n    return memos")], "C05.9")
+TWINS["C05_twin_initialised_flag_in_push"] = ("C05", [(S, "    memo_stack.append(memos)\n    return memos", "    memo_stack.append(memos)\n    _shape_storage.used = True\n    return memos")])
+
+
+# C09.4 with the suffix comparison spelled as a loop (on top of benign/W5/2.diff)
+SEEDS["C09_loop_form_suffix_comparison_dropped"] = ("C09", [("@diff", "benign/W5/2.diff", None), (P, "                        if not has_structure(dummy_leaf):\n                            return False", "                        pass")], "C09.4")
+SEEDS["C09_loop_form_suffix_comparison_inverted"] = ("C09", [("@diff", "benign/W5/2.diff", None), (P, "                        if not has_structure(dummy_leaf):\n                            return False", "                        if has_structure(dummy_leaf):\n                            return False")], "ANALYSIS-ERROR")
